@@ -35,6 +35,19 @@ def configs(tier):
   return out
 
 
+def sharded_configs(tier):
+  out = []
+  for W, S, total in ((1, 1, 4), (1, 2, 4), (2, 2, 5), (2, 3, 6), (2, 1, 3)):
+    for ibs in (1, 2):
+      out.append(('sharded', dict(W=W, S=S, total=total, batch=2, ibs=ibs,
+                                  menu=MENU)))
+  out.append(('sharded', dict(W=2, S=3, total=6, batch=2, menu=MENU, retry=0)))
+  out.append(('sharded', dict(W=2, S=2, total=5, batch=2, menu=MENU, retry=1)))
+  out.append(('sharded', dict(W=2, S=2, total=4, batch=2, fuse=False, menu=MENU)))
+  out.append(('sharded', dict(W=2, S=2, total=5, batch=2, menu=MENU, push=False)))
+  return out
+
+
 def run(ctx):
   cfgs = configs(ctx.tier)
   dev = 1 if ctx.quick else 2
@@ -43,16 +56,22 @@ def run(ctx):
       f'{len(cfgs)} configurations (as_completed / run / call_and_wait; 1-3 '
       'workers; 1-4 tasks; one failing task at each listed index with and '
       'without ignore_failures; push and pull heartbeat environments), default '
-      'schedule, virtual time. A case = one complete run; distinct = distinct '
+      'schedule, virtual time; the same for sharded pipelines (1-2 workers, 1-3 '
+      'shards, retry thresholds 0/1/default). A case = one complete run; distinct = distinct '
       '(configuration, fault placement).')
   ctx.assumptions += [
       'fake transport: a call runs its handler at most once; deadline errors '
       'have code 4; a dead server answers nothing and pushes no heartbeats',
       'time passes only when every thread waits or polls (virtual clock)',
-      'pipeline shards on a pool (WorkerPool.iterate) are covered by c16/c06b '
-      'harnesses when present',
+      'pipeline shards on a pool: sharded_pipelines_as_iterator over '
+      'PrefetchedCourierServers with the same fault menu on init_generator / '
+      'next_batch_from_generator',
   ]
   explorer.explore_all(ctx, MODULE, cfgs, pre_bound=-1, dev_bound=dev)
+  shc = sharded_configs(ctx.tier)
+  explorer.explore_all(ctx, MODULE, shc, pre_bound=-1, dev_bound=dev,
+                       split=0 if ctx.quick else 8)
+  ctx.notes['sharded_pipeline_configurations'] = len(shc)
   # the smallest configuration also under schedule exploration
   explorer.explore_all(
       ctx, MODULE, [('as_completed', dict(W=2, T=2, mode='delay'))],
